@@ -99,21 +99,8 @@ pub fn msg_json(m: &RefMsg) -> mccore::Json {
 // on this thread and print it from ASan's death callback, so that a report can
 // be tied to a replayable case.
 // ---------------------------------------------------------------------------
-thread_local! {
-    static ASAN_CASE: std::cell::RefCell<(String, u64)> = std::cell::RefCell::new((String::new(), 0));
-}
-
 #[inline]
-pub fn asan_case(_fam: &str, _idx: u64) {
-    #[cfg(feature = "asan")]
-    ASAN_CASE.with(|c| {
-        let mut c = c.borrow_mut();
-        if c.0 != _fam {
-            c.0 = _fam.to_string();
-        }
-        c.1 = _idx;
-    });
-}
+pub fn asan_case(_fam: &str, _idx: u64) {}
 
 #[cfg(feature = "asan")]
 extern "C" {
@@ -122,11 +109,7 @@ extern "C" {
 
 #[cfg(feature = "asan")]
 extern "C" fn asan_death() {
-    ASAN_CASE.with(|c| {
-        if let Ok(c) = c.try_borrow() {
-            eprintln!("ASAN-CASE {}:{}", c.0, c.1);
-        }
-    });
+    eprintln!("ASAN-CASE {}", mccore::guard::current_case());
 }
 
 pub fn asan_init() {
@@ -134,5 +117,4 @@ pub fn asan_init() {
     unsafe {
         __sanitizer_set_death_callback(asan_death);
     }
-    let _ = ASAN_CASE.with(|c| c.borrow().1);
 }
